@@ -402,6 +402,16 @@ func (b *Block) Zone() *types.WorkObject { return b.Views[Zone] }
 // per-level GeneratePendingHeader (which makes each node adopt that head), combine, fetch,
 // stamp coinbase/lock/data/time, register the body, proto round trip.
 func (n *Net) Pending(heads Heads, o MineOpts) (*types.WorkObject, error) {
+	ph, err := n.PendingFull(heads, o)
+	if err != nil {
+		return nil, err
+	}
+	return RoundTripPending(ph)
+}
+
+// PendingFull is Pending without the final wire round trip: the returned work object still
+// carries the body the worker assembled (already registered with the node under its seal hash).
+func (n *Net) PendingFull(heads Heads, o MineOpts) (*types.WorkObject, error) {
 	var phs [3]*types.WorkObject
 	for ctx := 0; ctx < 3; ctx++ {
 		blk := n.Nodes[ctx].Core.GetBlockByHash(heads[ctx].Hash())
@@ -443,7 +453,7 @@ func (n *Net) Pending(heads Heads, o MineOpts) (*types.WorkObject, error) {
 	}
 	woh.SetTime(maxT + td)
 	zone.Core.Slice().VerifRegisterPendingBody(ph)
-	return RoundTripPending(ph)
+	return ph, nil
 }
 
 // RoundTripPending sends the pending header through the wire codec like the miner RPC does.
